@@ -1,8 +1,10 @@
 package openapi
 
 import (
+	"encoding/base64"
 	"encoding/json"
 	"fmt"
+	"reflect"
 	"strconv"
 
 	"goa.design/goa/v3/codegen"
@@ -426,6 +428,66 @@ func ToStringMap(val any) any {
 	}
 }
 
+// EncodeBytes returns val with every []byte value it contains replaced with
+// its base64 encoding so that the JSON and YAML renderings of an example or of
+// a default value are identical (encoding/json renders []byte values as base64
+// strings, the YAML encoder as sequences of integers). Values that do not
+// contain any []byte are returned unchanged.
+func EncodeBytes(val any) any {
+	if val == nil {
+		return nil
+	}
+	if b, ok := val.([]byte); ok {
+		return base64.StdEncoding.EncodeToString(b)
+	}
+	rv := reflect.ValueOf(val)
+	if !containsBytes(rv) {
+		return val
+	}
+	switch rv.Kind() {
+	case reflect.Slice, reflect.Array:
+		res := make([]any, rv.Len())
+		for i := range res {
+			res[i] = EncodeBytes(rv.Index(i).Interface())
+		}
+		return res
+	case reflect.Map:
+		// JSON object keys are strings
+		res := make(map[string]any, rv.Len())
+		iter := rv.MapRange()
+		for iter.Next() {
+			res[fmt.Sprint(iter.Key().Interface())] = EncodeBytes(iter.Value().Interface())
+		}
+		return res
+	}
+	return val
+}
+
+// containsBytes returns true if the value is or contains a non-nil []byte.
+func containsBytes(rv reflect.Value) bool {
+	switch rv.Kind() {
+	case reflect.Interface, reflect.Ptr:
+		return !rv.IsNil() && containsBytes(rv.Elem())
+	case reflect.Slice, reflect.Array:
+		if rv.Type().Elem().Kind() == reflect.Uint8 {
+			return rv.Kind() == reflect.Array || !rv.IsNil()
+		}
+		for i := 0; i < rv.Len(); i++ {
+			if containsBytes(rv.Index(i)) {
+				return true
+			}
+		}
+	case reflect.Map:
+		iter := rv.MapRange()
+		for iter.Next() {
+			if containsBytes(iter.Value()) {
+				return true
+			}
+		}
+	}
+	return false
+}
+
 // MarshalJSON returns the JSON encoding of s.
 func (s *Schema) MarshalJSON() ([]byte, error) {
 	return MarshalJSON((*_Schema)(s), s.Extensions)
@@ -484,9 +546,9 @@ func buildAttributeSchema(api *expr.APIExpr, s *Schema, at *expr.AttributeExpr) 
 		// Ref is exclusive with other fields
 		return s
 	}
-	s.DefaultValue = ToStringMap(at.DefaultValue)
+	s.DefaultValue = EncodeBytes(ToStringMap(at.DefaultValue))
 	s.Description = at.Description
-	s.Example = at.Example(api.ExampleGenerator)
+	s.Example = EncodeBytes(at.Example(api.ExampleGenerator))
 	s.Extensions = ExtensionsFromExpr(at.Meta)
 	initAttributeValidation(s, at)
 
